@@ -144,6 +144,13 @@ fn hash_int_function(
     let hash = hasher.finish();
 
     let result = if allow_leading_zero {
+        // format!() panics on a width above u16::MAX ("Formatting argument out of range")
+        if length > u16::MAX as usize {
+            return Err(tera::Error::msg(format!(
+                "hash_int cannot pad to length {length} (maximum {})",
+                u16::MAX
+            )));
+        }
         format!("{:0width$}", hash, width = length)
     } else {
         format!("{}", hash)
